@@ -225,6 +225,19 @@ def exhaustive_extra(ctx):
     for i in range(ctx.shard, len(trees), ctx.nshards * (1 if ctx.tier == "thorough" else 2)):
         _run_tree(ctx, trees[i])
     ctx.shape("stratum:exhaustive-extra")
+    # the same with atoms built by the public constructor, whose literals keep their spelling: different texts of
+    # one normalised name (PEP 685) and a different name, all pairs, one further level
+    spell = ["Foo_Bar", "foo-bar", "FOO.bar", "baz"]
+    xa = [["mx", "extra", op, n] for op in ("==", "!=") for n in spell]
+    trees = []
+    for x, y in itertools.product(xa, repeat=2):
+        for o in ("and", "or"):
+            trees.append([o, x, y])
+            trees.append([o, [o, x, y], ["m", 'sys_platform == "linux"']])
+            trees.append(["or" if o == "and" else "and", [o, x, y], xa[0]])
+    for i in range(ctx.shard, len(trees), ctx.nshards):
+        _run_tree(ctx, trees[i])
+    ctx.shape("stratum:constructor-built-extras")
 
 
 def run(ctx):
